@@ -22,7 +22,8 @@ struct AllocState {
   u64 default_constructed = 0;               // library built an allocator out of thin air
   u64 arena0_allocs = 0;                     // allocations through such an allocator
   std::vector<std::string> errors;           // mismatched or unknown deallocations
-  i64 fail_after = -1;                       // not used for verdicts (allocation failure is not injected, DESIGN 3.3)
+  i64 fail_after = -1;                       // >= 0: the (fail_after+1)-th request from now is refused with bad_alloc (armed around one mutating call only, DESIGN 3.3)
+  u64 injected_failures = 0;
   void reset_counters() { refused_max = 0; refused = 0; default_constructed = 0; arena0_allocs = 0; errors.clear(); }
 };
 inline AllocState& alloc_state() { static AllocState s; return s; }
@@ -42,6 +43,7 @@ template<typename T> struct talloc {
     AllocState& s = alloc_state();
     if (n > static_cast<size_type>(-1) / sizeof(T)) { s.refused++; s.refused_max = static_cast<size_t>(-1); throw std::bad_alloc(); }
     const size_t bytes = n * sizeof(T);
+    if (s.fail_after >= 0 && s.fail_after-- == 0) { s.injected_failures++; throw std::bad_alloc(); }
     if (bytes > s.budget) { s.refused++; s.refused_max = std::max(s.refused_max, bytes); throw std::bad_alloc(); }
     void* p = std::malloc(bytes ? bytes : 1);
     if (!p) throw std::bad_alloc();
